@@ -19,7 +19,7 @@ import tempfile
 from decimal import Decimal
 
 from .. import core, molgen
-from ..gen import gen_mdl
+from ..gen import gen_mdl, gen_mdl_options
 
 LEVEL = 'translation_validation'
 LEVEL_TEXT = ('The text layer of the MDL formats (fixed-width formatting, int()/float() of column slices, charge codes, '
@@ -58,7 +58,9 @@ def generate(ctx):
     _state['tables'] = t
     from ..gen import gen_periodic
     ppath = gen_periodic.generate()[0]     # `symbols_fit` is proved over the regenerated element table
-    return [path, ppath]
+    opath, ot = gen_mdl_options.generate()  # option forwarding table (AST walk over chython/files/*.py)
+    _state['options_table'] = ot
+    return [path, ppath, opath]
 
 
 # ------------------------------------------------------------------------------------------------
@@ -1802,6 +1804,148 @@ def stream_roundtrip(ctx, mols, n):
                     ctx.fail(*r)
 
 
+# ------------------------------------------------------------------------------------------------
+# O:options — every documented reader option takes effect on every carrier (molecule and reaction records alike)
+# ------------------------------------------------------------------------------------------------
+
+OPTION_CARRIERS = (('SDFWrite', 'mol', 'file'), ('ESDFWrite', 'mol', 'file'), ('RDFWrite', 'mol', 'file'),
+                   ('ERDFWrite', 'mol', 'file'), ('RDFWrite', 'rxn', 'file'), ('ERDFWrite', 'rxn', 'file'),
+                   ('MRVWrite', 'mol', 'file'), ('MRVWrite', 'rxn', 'file'),
+                   ('SDFWrite', 'mol', 'string'), ('ESDFWrite', 'mol', 'string'),
+                   ('RDFWrite', 'rxn', 'string'), ('ERDFWrite', 'rxn', 'string'))
+OPTIONS = ('remap', 'ignore', 'ignore_bad_isotopes', 'calc_cis_trans', 'ignore_stereo')
+OPTION_KNOWN = {('RDFWrite', 'mol', 'file', 'remap'): 'C11/options/RDFRead/mol-record/remap',
+                ('ERDFWrite', 'mol', 'file', 'remap'): 'C11/options/RDFRead/mol-record/remap',
+                ('RDFWrite', 'mol', 'file', 'ignore'): 'C11/options/RDFRead/mol-record/ignore',
+                ('ERDFWrite', 'mol', 'file', 'ignore'): 'C11/options/RDFRead/mol-record/ignore'}
+
+
+def _option_molecule(option):
+    """the fixed record on which the option is observable (explicit coordinates, atom numbers 5 9 2 7)"""
+    from chython import smiles
+    if option == 'calc_cis_trans':
+        m = smiles('C/C=C/C')
+        xy = ((0, 0), (0.825, 0.5), (1.65, 0), (2.475, 0.5))
+    else:
+        m = smiles('C[C@H](N)O')
+        xy = ((-0.7, -0.4), (0, 0), (0.7, -0.4), (0, 0.8))
+    for n, (x, y) in zip((1, 2, 3, 4), xy):
+        m.atom(n).x, m.atom(n).y = x, y
+    m.flush_cache()
+    m.remap({1: 5, 2: 9, 3: 2, 4: 7})
+    if option == 'ignore_bad_isotopes':
+        m.atom(5)._isotope = 3      # no carbon isotope: the containers refuse it
+        m.flush_cache()
+    return m
+
+
+def _duplicate_numbers(fmt, text):
+    """the same record with every atom-atom mapping number set to 1 (what `ignore=False` must refuse)"""
+    if fmt == 'MRVWrite':
+        return re.sub(r'mrvMap="\d+"', 'mrvMap="1"', text)
+    out = []
+    for l in text.split('\n'):
+        if len(l) == 69 and l[30] == ' ' and l[34:36] == ' 0' and l[:10].strip().replace('.', '').replace('-', '').isdigit():
+            l = l[:60] + '  1' + l[63:]         # V2000 atom line, `{m:3d}` in columns 61-63
+        elif l.startswith('M  V30 ') and len(l.split()) >= 8 and '.' in l.split()[4]:
+            t = l.split(' ')
+            t[8] = '1'                          # M  V30 n sym x y z m
+            l = ' '.join(t)
+        out.append(l)
+    return '\n'.join(out)
+
+
+def _option_read(fmt, kind, api, text, **kw):
+    """molecules of the first record (reaction: first reactant), [] when the record is skipped, or the exception name"""
+    from chython.files import mdl_mol, mdl_rxn
+    try:
+        if api == 'string':
+            lines = text.splitlines(keepends=True)
+            if kind == 'rxn':
+                i = next(k for k, l in enumerate(lines) if l.startswith('$RXN'))
+                got = [mdl_rxn(''.join(lines[i:]), **kw)]
+            else:
+                j = next(k for k, l in enumerate(lines) if l.startswith('M  END'))
+                got = [mdl_mol(''.join(lines[:j + 1]), **kw)]
+        else:
+            _, Rd = io_classes(fmt)
+            f = io.BytesIO(text.encode()) if fmt == 'MRVWrite' else io.StringIO(text)
+            got = list(Rd(f, **kw))
+    except Exception as e:
+        return type(e).__name__
+    if kind == 'rxn':
+        return [m for r in got for m in r.reactants][:1]
+    return got[:1]
+
+
+def options_check(inp):
+    """property oracle on the real code: the reader option `inp['option']` has its documented effect on this carrier"""
+    from chython import ReactionContainer
+    fmt, kind, api, option = inp['fmt'], inp['kind2'], inp['api'], inp['option']
+    m = _option_molecule(option)
+    obj = ReactionContainer([m], [m.copy()]) if kind == 'rxn' else m
+    text = write_text(fmt, [obj])
+    if option == 'ignore':
+        text = _duplicate_numbers(fmt, text)
+    base = {'calc_cis_trans': False}
+    off = _option_read(fmt, kind, api, text, **base)
+    on = _option_read(fmt, kind, api, text, **dict(base, **{option: option != 'ignore'}))
+    sig = OPTION_KNOWN.get((fmt, kind, api, option), f'C11/options/{fmt}/{kind}-{api}/{option}')
+    where = f'{fmt} {kind} record via {"mdl_" + kind if api == "string" else "reader"}'
+
+    def nums(r):
+        return [n for n, _ in r[0].atoms()] if isinstance(r, list) and r else r
+
+    bad = None
+    if option == 'remap':
+        if nums(off) != [5, 9, 2, 7]:
+            bad = f'default read gives atom numbers {nums(off)}, written 5 9 2 7'
+        elif (nums(on) if kind == 'mol' else (isinstance(on, list) and sorted(nums(on)))) != [1, 2, 3, 4]:
+            # molecules are renumbered in atom order; reactions close the gaps of the numbering (order of numbers kept)
+            bad = f'remap=True gives atom numbers {nums(on)}, documented: renumbered from one'
+    elif option == 'ignore':
+        if not (isinstance(off, list) and off and sorted(set(nums(off))) == sorted(nums(off)) and len(nums(off)) == 4):
+            bad = f'duplicated mapping numbers, default ignore=True: got {nums(off)}, expected the record with 4 distinct numbers'
+        elif isinstance(on, list) and on:
+            bad = f'duplicated mapping numbers are accepted with ignore=False (numbers {nums(on)}); MappingError is documented'
+    elif option == 'ignore_bad_isotopes':
+        if isinstance(off, list) and off and len(off[0]) == 4 and all(a.isotope is None for _, a in off[0].atoms()):
+            bad = 'an impossible isotope (3C) is silently reset with the default ignore_bad_isotopes=False'
+        elif not (isinstance(on, list) and on and [(n, a.atomic_symbol, a.isotope) for n, a in on[0].atoms()] ==
+                  [(5, 'C', None), (9, 'C', None), (2, 'N', None), (7, 'O', None)]):
+            bad = f'ignore_bad_isotopes=True does not read the record with the isotope reset: {nums(on)}'
+    elif option == 'calc_cis_trans':
+        c0 = len(stereo_record(off[0])[2]) if isinstance(off, list) and off else off
+        c1 = len(stereo_record(on[0])[2]) if isinstance(on, list) and on else on
+        if c1 != 1:
+            bad = f'calc_cis_trans=True: {c1} cis/trans labels on a drawn trans-2-butene, expected 1'
+        elif c0 != 0:
+            bad = f'calc_cis_trans=False: {c0} cis/trans labels, expected none'
+    elif option == 'ignore_stereo':
+        c0 = len(stereo_record(off[0])[0]) if isinstance(off, list) and off else off
+        c1 = len(stereo_record(on[0])[0]) if isinstance(on, list) and on else on
+        if c0 != 1:
+            bad = f'default read: {c0} tetrahedral labels from the wedge, expected 1'
+        elif c1 != 0:
+            bad = f'ignore_stereo=True: {c1} tetrahedral labels, expected none'
+    if bad:
+        return (sig, f'{where}, option {option}: {bad}', dict(inp, signature=sig))
+    return None
+
+
+def stream_options(ctx):
+    """O:options — 12 carriers x 5 options on the real code; the static counterpart is the regenerated forwarding table"""
+    for fmt, kind, api in OPTION_CARRIERS:
+        for option in OPTIONS:
+            inp = {'kind': 'options', 'fmt': fmt, 'kind2': kind, 'api': api, 'option': option}
+            ctx.count(('O', fmt, kind, api, option))
+            ctx.dist('O:options:' + option)
+            r = options_check(inp)
+            if r:
+                ctx.fail(*r)
+
+
+
 def correspond(ctx):
     ctx.cov['programs'] = 20  # MOLWrite/EMOLWrite._write_molecule, SDFWrite/ESDFWrite/RDFWrite/ERDFWrite.write, parse_mol_v2000/v3000,
     # emol.split, parse_rxn_v2000/v3000, postprocess_parsed_molecule, SDFRead/RDFRead._read_block/read_metadata/read_structure,
@@ -1818,6 +1962,7 @@ def correspond(ctx):
     stream_testfiles(ctx)
     stream_meta(ctx, 300 if ctx.quick else 8000)
     stream_roundtrip(ctx, mols, 25 if ctx.quick else 600)
+    stream_options(ctx)
     # core starts the failing-input search only when no failure at all was recorded; failures that belong to known
     # findings (reported by the RT stream as well as by the standing probes) must not suppress it
     known = {f['signature'] for f in core.load_findings('C11') if f['status'] == 'known'}
@@ -1959,6 +2104,8 @@ def probe(inp):
         r = sessions_check(inp)
     elif kind == 'slice-past-end':
         r = slice_past_end_probe(inp)
+    elif kind == 'options':
+        r = options_check(inp)
     elif kind == 'string-api':
         from chython.files import mdl_mol, mdl_rxn
         lines = inp['text'].splitlines(keepends=True)
